@@ -131,6 +131,7 @@ static void run_case(long idx)
         gb_free(&dst);
     }
     gb_free(&out);
+    v_sample("compress side: ep=%s n=%zu fam=%s params=[%s] ref=%zu bound=%zu capacities=%d (first %zu last %zu)", ep_name[J.ep], n, v_df_name[fam], J.P.desc, refSize, bound, nc, caps[0], caps[nc - 1]);
 done:
     ZSTD_freeCDict(J.cdict); ZSTD_freeCCtx(cctx); ZSTD_freeDCtx(dctx); free(dict); free(J.seqs); gb_free(&src);
 }
@@ -211,6 +212,7 @@ static void run_dcase(long idx)
             gb_free(&bad); gb_free(&out);
         }
         ZSTD_freeDCtx(d); gb_free(&in);
+        v_sample("decode side: %d frame(s) total=%zu compressed=%zu anyUnknownSize=%d", nframes, total, ctotal, anyUnknown);
     }
     (void)skipFrames; (void)margin_ok;
 out:
